@@ -354,7 +354,7 @@ Sorted(b) == \A i \in 1..(Len(bd[b].perm) - 1) : bd[b].ks[bd[b].perm[i]] < bd[b]
 KeysOf(b) == {bd[b].ks[bd[b].perm[i]] : i \in 1..Len(bd[b].perm)}
 Holds(b, k) == Lookup(b, bd[b].perm, k) # NoSlot /\ bd[b].lv[Lookup(b, bd[b].perm, k)] = abs[k]
 Quiescent == AllDone =>
-   /\ ~rootlock /\ \A n \in Borders : Stable(bd[n].ver) /\ \A n \in Interiors : Stable(it[n].ver)
+   /\ ~rootlock /\ (\A n \in Borders : Stable(bd[n].ver)) /\ (\A m \in Interiors : Stable(it[m].ver))
    /\ VerOf(rootp).root /\ ParentOf(rootp) = NULL
    /\ LET ch == InOrd(rootp) IN
       /\ \A j \in 1..Len(ch) : ch[j] \in Borders
